@@ -301,9 +301,9 @@ pub fn run(ctx: &Ctx) -> EvidenceMeta {
   let tc = TimeCtors;
   let jobs: Vec<Job> = vec![
     Box::new(|| ctx.enumerate(&sweep, sweep_keys(4).into_iter(), true)),
-    Box::new(|| ctx.prop(&decorated, decorated_key(), ctx.n(5000, 200_000))),
-    Box::new(|| ctx.prop(&tc, (rfc3339_text(), any::<u8>()).prop_map(|(text, b)| TimeCtorCase { text, valid: true, through_token: b % 8 == 0 }), ctx.n(5000, 200_000))),
-    Box::new(|| ctx.prop(&tc, not_a_date().prop_map(|text| TimeCtorCase { text, valid: false, through_token: false }), ctx.n(3000, 100_000))),
+    Box::new(|| ctx.prop(&decorated, decorated_key(), ctx.n(30_000, 300_000))),
+    Box::new(|| ctx.prop(&tc, (rfc3339_text(), any::<u8>()).prop_map(|(text, b)| TimeCtorCase { text, valid: true, through_token: b % 8 == 0 }), ctx.n(30_000, 300_000))),
+    Box::new(|| ctx.prop(&tc, not_a_date().prop_map(|text| TimeCtorCase { text, valid: false, through_token: false }), ctx.n(20_000, 200_000))),
     Box::new(|| {
       // the C11 rendering space, strict renderings only
       let strat = (tgen::rendering(), 0i64..253_000_000_000, 0u32..1_000_000_000).prop_map(|(mut r, secs, n): (Rendering, i64, u32)| {
@@ -313,7 +313,7 @@ pub fn run(ctx: &Ctx) -> EvidenceMeta {
         }
         TimeCtorCase { text: tgen::render(secs, n, &r), valid: true, through_token: false }
       });
-      ctx.prop(&tc, strat, ctx.n(3000, 100_000))
+      ctx.prop(&tc, strat, ctx.n(20_000, 200_000))
     }),
   ];
   run_jobs(jobs);
